@@ -1172,6 +1172,27 @@ PROPS = {
               "all ordered pairs of windows on a 5-point grid (second operand on a distinct-but-equal grid object), coefficient "
               "patterns with zero pieces (probability 0.3-0.4), identical coefficients on identical windows: isZero, checkOverlap both "
               "ways, ==/!= both ways, copy equality, product and its isZero", exhaustive=True),
+    'C20': dict(gen=lambda seed, tier: [], nontrivial=lambda t: True, level='other',
+                variants={'quick': [], 'thorough': []}, extra_stages=[stages.stage_examples],
+                rule="examples/*.cpp of the current tree compiled with -D_GLIBCXX_DEBUG and ASan/UBSan (Eigen assertions on): diffusion with "
+                     "random positive piecewise-constant coefficients on 1..12 (quick) / 1..40 intervals, random boundary values, scaled by "
+                     "0.5, 3, 1000, and constant coefficients (straight line); spline potential on interpolation grids of 12..30 / 8..60 "
+                     "points (both sides of the ten-eigenvalue boundary), shifted by a constant; harmonic oscillator and hydrogen spectra; "
+                     "non-trivial = distinct (case, check) pairs",
+                explanation="PARTIAL. Proved (Properties_C20.v, about the model of the solver skeletons): container accesses in range, end "
+                            "values for any solver output, scale and shift laws of the assembled systems. Validated with tolerances, not "
+                            "proved: Eigen's factorizations and spectra (n+1/2, -1/n^2), the straight line for a constant coefficient."),
+    'C17': dict(gen=lambda seed, tier: [], nontrivial=lambda t: True, level='other',
+                variants={'quick': [], 'thorough': []}, extra_stages=[stages.stage_fp_quad],
+                rule="random spline pairs (orders 0..3, all window placements incl. disjoint/empty, dyadic grids and coefficients) x "
+                     "polynomial weights of degree 0..3 x quadrature sizes n-1, n, n+2 around the exactness bound 2n-1 >= o1+o2+d; double "
+                     "(thorough also long double and -O2): value against the analytic bilinear form (model, pair world) within 2^20 eps S "
+                     "when the bound holds; a recording weight function observes every abscissa: exactly n strictly inside each common "
+                     "interval and none elsewhere, on both sides of the bound",
+                explanation="PARTIAL. Proved (Properties_C17.v): for every rule that is exact for polynomials of degree <= 2n-1, integrate "
+                            "equals the analytic bilinear form with the weight as operator, over exactly the common intervals, zero if none, "
+                            "DIFFERING_GRIDS on different grids. Validated, not proved: that Boost's Gauss-Legendre tables are such a rule "
+                            "(irrational nodes, floating tables) - checked numerically against the exact analytic value."),
     'C16': dict(gen=gen_C16, nontrivial=lambda t: t.split()[0] not in ('GridNew', 'SupNew'), level='other',
                 variants={'quick': ['plain'], 'thorough': ['plain']}, extra_stages=[stages.stage_fp_round],
                 rule="well-scaled exactly representable inputs (grid points multiples of 1/8 in [-8, 8], spacing >= 1/8, orders <= 6, "
